@@ -100,9 +100,18 @@ def convert_real_number(_s, _l, tokens):
     return tokens
 
 
+class CharacterStringValue(str):
+    """The text of a character string value: "12" is not the number 12.
+
+    """
+
+
 def convert_number(token):
     if isinstance(token, list):
         token = token[0]
+
+    if isinstance(token, CharacterStringValue):
+        return str(token)
 
     try:
         return int(token)
@@ -1331,7 +1340,8 @@ def create_grammar():
     chars_defn = (cstring | quadruple | tuple_ | defined_value)
     charsyms = delimitedList(chars_defn)
     character_string_list = (left_brace + charsyms + right_brace)
-    restricted_character_string_value = (cstring
+    restricted_character_string_value = (cstring.copy().setParseAction(
+        lambda _s, _l, tokens: CharacterStringValue(tokens[0]))
                                          | character_string_list
                                          | quadruple
                                          | tuple_)
